@@ -2,6 +2,7 @@
 //! that the extracted Coq models recompute.  One subcommand per property family.
 mod c07;
 mod c08;
+mod c11;
 mod util;
 
 fn main() {
@@ -16,6 +17,7 @@ fn main() {
         "part" => c07::run(&args),
         "encode" => c08::run(&args, false),
         "source" => c08::run(&args, true),
+        "sender" => c11::run(&args),
         other => {
             eprintln!("unknown subcommand {}", other);
             std::process::exit(2);
